@@ -186,6 +186,14 @@ func runTrial(run *vk.Run, t trial) (out outcome) {
 			c.Close()
 		case "stall":
 			c.SetBlackhole(true, true)
+		case "late":
+			// nothing gets through until after both upgrade timeouts (1 s) have expired, then everything does:
+			// the probe and its answer arrive late
+			c.SetStall(true)
+			go func() {
+				time.Sleep(1300 * time.Millisecond)
+				c.SetStall(false)
+			}()
 		case "cut-c2s":
 			c.SetDelay(time.Millisecond)
 			c.CutAfter(proxy.C2S, t.CutAt)
@@ -254,7 +262,7 @@ func runTrial(run *vk.Run, t trial) (out outcome) {
 		switch t.Fault {
 		case "refuse":
 			return true
-		case "stall":
+		case "stall", "late":
 			return false // decided by time below
 		}
 		return c.IsClosed()
@@ -266,6 +274,9 @@ func runTrial(run *vk.Run, t trial) (out outcome) {
 		}
 		if t.Fault == "stall" && time.Since(start) > 1500*time.Millisecond {
 			return true
+		}
+		if t.Fault == "late" {
+			return time.Since(start) > 2500*time.Millisecond
 		}
 		return time.Since(start) > 4*time.Second
 	}
@@ -483,7 +494,7 @@ func runTrial(run *vk.Run, t trial) (out outcome) {
 
 func main() {
 	run := vk.Start("C07", "fault_enumeration")
-	run.Rule("trials = traffic pattern {full speed, jitter, bursts released when the websocket connection appears} x upgrade fault {none, slowed (traffic flows through the swap), held back and slowed so that the server's first PING is queued on polling when the UPGRADE packet arrives (lead swept 70..130 ms; the trial watches until one ping timeout after that PING was due), refused, stalled (timeouts 1 s), " +
+	run.Rule("trials = traffic pattern {full speed, jitter, bursts released when the websocket connection appears} x upgrade fault {none, slowed (traffic flows through the swap), held back and slowed so that the server's first PING is queued on polling when the UPGRADE packet arrives (lead swept 70..130 ms; the trial watches until one ping timeout after that PING was due), refused, stalled (timeouts 1 s), late (held for 1.3 s, i.e. past both upgrade timeouts, then delivered), " +
 		"cut at every 8th byte of the websocket byte stream in each direction}; numbered text and binary messages (every 97th one 33..113 KB) in both directions from before the attempt until after it; " +
 		"distinct = (pattern, fault, client swapped?, connection alive/died)")
 	run.Assume("order across the swap is not demanded (C02 covers settled transports)", "a cut after the client swapped legitimately kills the connection: then only at-most-once and close-once are required",
@@ -503,6 +514,9 @@ func main() {
 				trials = append(trials, trial{Pattern: p, Fault: f})
 				if (f == "none" || f == "slow") && p != "jitter" {
 					trials = append(trials, trial{Pattern: p, Fault: f, Emitters: 8})
+				}
+				if f == "slow" && p == "jitter" && (rep == 0 || run.Thorough()) {
+					trials = append(trials, trial{Pattern: p, Fault: "late"})
 				}
 				if f == "slow" && p == "jitter" {
 					for lead := int64(70); lead <= 130; lead += 10 {
